@@ -1,7 +1,7 @@
 """Suite table: which TLC models exist, with which constants per tier, and which
 properties run which suites and drivers (DESIGN.md section 6)."""
 
-PARSE_INVS = ["C02C05_Generic", "C02C05_Typed", "C01_RoundTrip", "C03_Render", "C04_Valid", "C10_Rebuild",
+PARSE_INVS = ["EmitNonString", "C02C05_Generic", "C02C05_Typed", "C01_RoundTrip", "C03_Render", "C04_Valid", "C10_Rebuild",
               "C07_Structure", "C08_TypedVsGeneric", "C08_UnknownType", "Emit"]
 
 
@@ -25,7 +25,7 @@ FORMAT_INVS = ["C09_BuildOk", "C03_Render", "C09_ParseBack", "C04_Valid", "Emit"
 
 
 def format_suite(mode_q, mode_t):
-    return dict(module="MC_Format", kind="bfs", invariants=FORMAT_INVS,
+    return dict(module="MC_Format", kind="bfs", invariants=FORMAT_INVS, replay=["--serde"],
                 quick=dict(MODE='"%s"' % mode_q), thorough=dict(MODE='"%s"' % mode_t),
                 describe="one component position holds a character / pair of characters; build, Display, parse back")
 
@@ -36,7 +36,7 @@ BUILDER_INVS = ["C09_Faithful", "C09_Expected", "C04_Valid", "C09_ParseBack", "C
 
 def builder_suite(shape):
     base = dict(SHAPE='"%s"' % shape, ORDER='"code"', HIST="FALSE", DEPTH=0)
-    return dict(module="MC_Builder", kind="bfs", spec="Spec", invariants=BUILDER_INVS, constraints=["Small"],
+    return dict(module="MC_Builder", kind="bfs", spec="Spec", invariants=BUILDER_INVS, constraints=["Small"], replay=["--serde"],
                 quick=dict(base, SIZE='"q"', K=2, CK=1), thorough=dict(base, SIZE='"t"', K=3, CK=1),
                 describe="all builder states with at most K optional fields set over a small universe x every setter "
                          "(one case per transition) and build() from every state (4-step pipeline)")
@@ -104,6 +104,13 @@ SUITES.update({
                             "expected outcome and call counts replayed, and the calls recorded by the shape validated as a trace of the step machine"),
 })
 
+SUITES.update({
+    "VALUES": dict(module="MC_Values", kind="bfs", invariants=["AllValid", "C19_Injective", "C19_OrderLaws", "C19_ParseInverts", "Emit"],
+                   quick=dict(SIZE='"q"', PINNED="FALSE"), thorough=dict(SIZE='"t"', PINNED="FALSE"),
+                   describe="all pairs of a universe of near-collision values (separator moved between adjacent fields, '&' '=' in values, literal escapes, case): "
+                            "equal iff same canonical string; order laws incl. transitivity over all triples"),
+})
+
 # drivers: name -> dict(trace module, events per tier)
 DRIVERS = {
 }
@@ -126,7 +133,11 @@ PROPS = {
     "C13": dict(suites=["TYPES-STR", "PARSE-SEP", "PARSE-PATH", "BUILDER-G", "BUILDER-SIM-G", "FORMAT-1"], drivers=[]),
     "C14": dict(suites=["SHAPES"], drivers=[]),
     "C15": dict(suites=["TYPES-LOOKUP", "PARSE-TYPED"], drivers=[]),
+    "C16": dict(suites=["PARSE-SEP", "PARSE-PATH", "PARSE-QUAL", "PARSE-TYPED", "FORMAT-1", "FORMAT-2", "BUILDER-G", "BUILDER-T", "TYPES-LOOKUP"], drivers=[]),
+    "C17": dict(suites=[], drivers=[], extra="c17",
+                assumptions=["feature sets are compile-time: the harness is compiled once per set; TLC supplies the common case stream and validates the zipped transcripts, it does not enumerate configurations"]),
     "C18": dict(suites=["TYPES-COMB"], drivers=[]),
+    "C19": dict(suites=["VALUES", "PARSE-QUAL", "PARSE-QUALS2", "FORMAT-1", "QUAL"], drivers=[]),
 }
 
 ASSUMPTIONS_COMMON = [
